@@ -127,6 +127,10 @@ func NewReader(db *DB) (Reader, error) {
 	}
 	db.l.Lock()
 	defer db.l.Unlock()
+	if db.destroyable && db.refCount == 0 {
+		// Destroy() already closed the backend: handing out a reader would use it after close
+		return &DataReader{}, fmt.Errorf("Cannot create new reader, DB is closed")
+	}
 	db.refCount++
 	context := db.dbi.NewContext()
 
